@@ -278,6 +278,7 @@ class Server(object):
         self.log = []
         self.uploads = []     # (jid, node) every key upload as received
         self.upload_policy = "result"   # result | error | drop  (what the next upload gets as answer)
+        self.label_next_as_broadcast = False   # deliver the next one-to-one message as <message from="status@broadcast" participant=sender>
         self.seq = 0
 
     # ---- connections
@@ -356,6 +357,10 @@ class Server(object):
                                             "t": "1500000100", "notify": "n"}, ch), msg_id=node["id"], kind="message")
             else:
                 attrs = {"from": jid, "id": node["id"], "type": node["type"], "t": "1500000100", "notify": "n"}
+                if self.label_next_as_broadcast:
+                    self.label_next_as_broadcast = False
+                    attrs["from"] = "status@broadcast"
+                    attrs["participant"] = jid
                 self.q(to, N("message", attrs, list(node.getAllChildren("enc")) + [c for c in node.getAllChildren() if c.tag != "enc"]),
                        msg_id=node["id"], kind="message")
         elif node.tag == "receipt":
